@@ -73,6 +73,17 @@ func c17CheckOne(cs c17Case) (sig, what string) {
 		if r != cs.R&31 || g != cs.G&31 || b != cs.B&31 || uint16(c)&0x8000 != 0 {
 			return "unexplained:pack-unpack", fmt.Sprintf("ToColor15(%d,%d,%d)=$%04x unpacks to (%d,%d,%d)", cs.R, cs.G, cs.B, uint16(c), r, g, b)
 		}
+	case "muldiv-after-zero-divisor":
+		// valid call (G,B), failed call (R,0) recovered, then the call under test
+		_ = color15.Color(cs.Color).MulDiv(cs.G, cs.B)
+		func() {
+			defer func() { _ = recover() }()
+			_ = color15.Color(cs.Color).MulDiv(cs.R, 0)
+		}()
+		got := uint16(color15.Color(cs.Color).MulDiv(cs.Mul, cs.Div))
+		if want := c17RefMulDiv(cs.Color, cs.Mul, cs.Div); got != want {
+			return "unexplained:muldiv-after-recovered-panic", fmt.Sprintf("Color($%04x): MulDiv(%d,%d), then a recovered MulDiv(%d,0), then MulDiv(%d,%d) = $%04x, want $%04x", cs.Color, cs.G, cs.B, cs.R, cs.Mul, cs.Div, got, want)
+		}
 	case "luminosity":
 		l := color15.Color(cs.Color).Luminosity()
 		want := uint8((int(cs.Color&31) + int(cs.Color>>5&31) + int(cs.Color>>10&31)) / 3)
@@ -198,10 +209,38 @@ func runC17(r *report.Run) {
 		}
 		atomic.AddInt64(&evals, ev)
 	})
+	// a call that panicked (divisor zero) and was recovered by the caller leaves nothing behind: the next
+	// valid call gives the reference result, whatever valid call came before the failed one. Every
+	// (multiplicand, divisor) pair, two colours; before it a valid call with a neighbouring multiplicand or
+	// divisor, then a failed call with this or the other multiplicand.
+	var afterPanic int64
+	par.For(256, func(_, m int) {
+		var ev int64
+		for d := 1; d < 256; d++ {
+			for _, c := range []uint16{0x7FFF, 0xDA96} {
+				for _, prime := range [][2]int{{m ^ 1, d}, {m, d ^ 1}, {m ^ 0x80, d ^ 0x80}} {
+					if prime[1] == 0 {
+						continue
+					}
+					for _, fm := range []int{m, d} {
+						cs := c17Case{Op: "muldiv-after-zero-divisor", Color: c, Mul: uint8(m), Div: uint8(d), R: uint8(fm), G: uint8(prime[0]), B: uint8(prime[1])}
+						ev++
+						if sig, what := c17CheckOne(cs); sig != "" {
+							r.Violation(sig, what, cs)
+							return
+						}
+					}
+				}
+			}
+		}
+		atomic.AddInt64(&afterPanic, ev)
+	})
+	evals += afterPanic
+	r.Set("calls_after_recovered_zero_divisor", afterPanic)
 	r.Set("evaluations", evals)
 	r.Set("distinct_nontrivial", nontrivial)
 	r.Set("muldiv_triples_with_saturation", saturated)
-	r.Set("rule", "every (colour, multiplicand, divisor) triple of the whole domain 2^16 x 256 x 255 once for the closed-form comparison and once more for monotonicity in the divisor, all 2^16 colours for unpack/pack and luminosity, all 2^24 (r,g,b) for pack/unpack; a MulDiv triple is non-trivial when the expected result differs from the input colour (all triples are distinct by construction)")
+	r.Set("rule", "every (colour, multiplicand, divisor) triple of the whole domain 2^16 x 256 x 255 once for the closed-form comparison and once more for monotonicity in the divisor, all 2^16 colours for unpack/pack and luminosity, all 2^24 (r,g,b) for pack/unpack; every (multiplicand, divisor) again right after a recovered call with divisor zero; a MulDiv triple is non-trivial when the expected result differs from the input colour (all triples are distinct by construction)")
 	r.Set("exhaustive", true)
 	r.Sample(c17Case{Op: "muldiv", Color: 0x0002, Mul: 128, Div: 1})
 	r.Sample(c17Case{Op: "muldiv", Color: 0x7FFF, Mul: 255, Div: 254})
